@@ -597,3 +597,158 @@ func preambleRejects(prog *Program, rel, typ string, names map[string]bool) map[
 	}
 	return out
 }
+
+// ruleEscapeDiscipline: G-escquote and G-width, two obligations of the string writers that the
+// per-byte interpretation does not see because they concern multi-byte runes.
+//
+// G-escquote: SEN may write a string without quotes; an escape sequence is only an escape
+// inside quotes. Every statement list of AppendSENString that appends a backslash escape
+// (a literal starting with a backslash, or the backslash byte) also sets quote = true.
+//
+// G-width: after `r, cnt := utf8.DecodeRuneInString(s[i:])` the scan resumes at i+cnt, the
+// width the decoder reported (1 for an invalid byte), never at another width: in the scope
+// of cnt every `x = i + e` has e == cnt.
+func ruleEscapeDiscipline(prog *Program, rep *Report, fnames ...string) {
+	rep.Rules = append(rep.Rules,
+		"G-escquote: every statement list of ojg.AppendSENString that appends a backslash escape to the output also assigns quote = true: a bare token never contains an escape sequence",
+		"G-width: in the string writers, inside the scope of `r, cnt := utf8.DecodeRuneInString(s[i:])`, every assignment of the form x = i + e has e == cnt: the scan resumes exactly after the bytes the decoder consumed (an invalid byte is one byte wide, its replacement text three)")
+	pk := prog.Pkg("")
+	if pk == nil {
+		rep.Errorf("G-escquote: root package not loaded")
+		return
+	}
+	info := pk.TypesInfo
+	lists, widths := 0, 0
+	for _, fname := range fnames {
+		fd, _ := prog.FuncDecl(Func(pk, fname))
+		if fd == nil {
+			rep.Errorf("G-escquote: ojg.%s not found", fname)
+			continue
+		}
+		isEscapeAppend := func(st ast.Stmt) bool {
+			as, ok := st.(*ast.AssignStmt)
+			if !ok || len(as.Rhs) != 1 {
+				return false
+			}
+			call, ok := as.Rhs[0].(*ast.CallExpr)
+			if !ok || len(call.Args) != 2 {
+				return false
+			}
+			if id, ok := call.Fun.(*ast.Ident); !ok || id.Name != "append" {
+				return false
+			}
+			tv, ok := info.Types[call.Args[1]]
+			if !ok || tv.Value == nil {
+				return false
+			}
+			switch tv.Value.Kind() {
+			case constant.String:
+				return strings.HasPrefix(constant.StringVal(tv.Value), "\\")
+			case constant.Int:
+				v, _ := constant.Int64Val(tv.Value)
+				return v == '\\'
+			}
+			return false
+		}
+		setsQuote := func(st ast.Stmt) bool {
+			as, ok := st.(*ast.AssignStmt)
+			if !ok || len(as.Lhs) != 1 || len(as.Rhs) != 1 {
+				return false
+			}
+			id, ok := as.Lhs[0].(*ast.Ident)
+			return ok && id.Name == "quote" && types.ExprString(as.Rhs[0]) == "true"
+		}
+		hasQuoteVar := false
+		ast.Inspect(fd.Body, func(n ast.Node) bool {
+			if id, ok := n.(*ast.Ident); ok && id.Name == "quote" {
+				hasQuoteVar = true
+			}
+			return true
+		})
+		idx := 0
+		ast.Inspect(fd.Body, func(n ast.Node) bool {
+			var list []ast.Stmt
+			switch b := n.(type) {
+			case *ast.BlockStmt:
+				list = b.List
+			case *ast.CaseClause:
+				list = b.Body
+			default:
+				return true
+			}
+			esc, q := false, false
+			var pos token.Pos
+			for _, st := range list {
+				if isEscapeAppend(st) {
+					esc = true
+					if pos == 0 {
+						pos = st.Pos()
+					}
+				}
+				if setsQuote(st) {
+					q = true
+				}
+			}
+			if esc && hasQuoteVar {
+				lists++
+				idx++
+				key := fmt.Sprintf("ojg.%s:escape-list#%d", fname, idx)
+				if q {
+					rep.Discharge("G-escquote", key, prog.Pos(pos), "the list that appends the escape sets quote")
+				} else {
+					rep.Violate(Finding{Rule: "G-escquote", Key: key, Pos: prog.Pos(pos), Msg: fname + " appends a backslash escape in a statement list that does not set quote = true: a string that needs nothing else quoted is written as a bare token with a backslash in it, which the SEN parser does not read back"})
+				}
+			}
+			return true
+		})
+		// G-width
+		ast.Inspect(fd.Body, func(n ast.Node) bool {
+			cc, ok := n.(*ast.CaseClause)
+			if !ok {
+				return true
+			}
+			var cnt types.Object
+			for _, st := range cc.Body {
+				if as, ok := st.(*ast.AssignStmt); ok && as.Tok == token.DEFINE && len(as.Lhs) == 2 && len(as.Rhs) == 1 {
+					if call, ok := as.Rhs[0].(*ast.CallExpr); ok {
+						if sel, ok := call.Fun.(*ast.SelectorExpr); ok && strings.HasPrefix(sel.Sel.Name, "DecodeRune") {
+							if id, ok := as.Lhs[1].(*ast.Ident); ok {
+								cnt = info.Defs[id]
+							}
+						}
+					}
+				}
+			}
+			if cnt == nil {
+				return true
+			}
+			widx := 0
+			for _, st := range cc.Body {
+				ast.Inspect(st, func(k ast.Node) bool {
+					as, ok := k.(*ast.AssignStmt)
+					if !ok || len(as.Lhs) != 1 || len(as.Rhs) != 1 {
+						return true
+					}
+					be, ok := ast.Unparen(as.Rhs[0]).(*ast.BinaryExpr)
+					if !ok || be.Op != token.ADD || types.ExprString(be.X) != "i" {
+						return true
+					}
+					widths++
+					widx++
+					key := fmt.Sprintf("ojg.%s:resume#%d", fname, widx)
+					if useObj(info, be.Y) == cnt {
+						rep.Discharge("G-width", key, prog.Pos(as.Pos()), "resumes at i + cnt")
+					} else {
+						rep.Violate(Finding{Rule: "G-width", Key: key, Pos: prog.Pos(as.Pos()), Msg: fmt.Sprintf("%s resumes the scan at i + %s instead of i + %s (the width DecodeRune reported): bytes after an invalid byte are skipped, or bytes of a rune are read again", fname, types.ExprString(be.Y), cnt.Name())})
+					}
+					return true
+				})
+			}
+			return false
+		})
+	}
+	rep.Eval(lists + widths)
+	if widths < 4*len(fnames) {
+		rep.Errorf("G-width examined %d resume assignments (floor %d): anchors did not resolve", widths, 4*len(fnames))
+	}
+}
